@@ -255,7 +255,13 @@ class _SetIteration:
             if not isinstance(to_iterate, _Base):
                 # We know _Base (Set, Bucket, Tree, TreeSet) will all iterate
                 # in sorted order. Other than that, we have no guarantee.
-                self.to_iterate = to_iterate = sorted(self.to_iterate)
+                to_iterate = sorted(self.to_iterate)
+                # The merge loops need strictly increasing keys: drop
+                # duplicates of the (now adjacent) equal elements.
+                self.to_iterate = to_iterate = [
+                    k for i, k in enumerate(to_iterate)
+                    if not i or compare(to_iterate[i - 1], k) != 0
+                ]
 
         if useValues:
             try:
